@@ -87,3 +87,45 @@ Definition rsrc_entries_examined (g : rgraph) (root : nat) : N :=
 (* the self-referential table: directory 1 has e sub-directory entries that
    all point to directory 1; the root (0) has e entries pointing to 1 *)
 Definition bomb (e : nat) : rgraph := fun d => repeat (true, 1) e.
+
+(* ------------------------------------------------------------ macho export trie walk *)
+(* macho parse_exports: a stack of (offset, prefix) nodes; a popped node whose
+   key is already in `visited` is skipped, otherwise the key is inserted and,
+   if the offset lies inside the trie data, the node is expanded: each of its
+   edges (a u8 count) pushes the child.  A parse error inside a node ends the
+   whole walk (`?`): the walk modelled here is the longest one.
+   The trie: offset -> children offsets, None = outside the data.
+   key_offset = true: visited is keyed by the offset alone (generated fact
+   trie_visited_key_is_offset); false: by (offset, path) where the path is the list of edge numbers taken from
+   the root (it stands for the accumulated prefix), i.e. per path. *)
+Definition trie := nat -> option (list nat).
+Definition tkey := (nat * list nat)%type.
+Fixpoint natlist_eqb (a b : list nat) : bool :=
+  match a, b with [], [] => true | x :: a', y :: b' => Nat.eqb x y && natlist_eqb a' b' | _, _ => false end.
+Definition tkey_eqb (a b : tkey) : bool := Nat.eqb (fst a) (fst b) && natlist_eqb (snd a) (snd b).
+Definition tmem (k : tkey) (l : list tkey) : bool := existsb (tkey_eqb k) l.
+
+Fixpoint trie_walk (key_offset : bool) (g : trie) (fuel : nat) (stack : list tkey) (visited : list tkey)
+                   (expanded : list nat) : list nat :=
+  match fuel with
+  | O => expanded
+  | S f =>
+      match stack with
+      | [] => expanded
+      | (o, path) :: rest =>
+          let key := if key_offset then (o, []) else (o, path) in
+          if tmem key visited then trie_walk key_offset g f rest visited expanded
+          else match g o with
+               | None => trie_walk key_offset g f rest (key :: visited) expanded
+               | Some children =>
+                   trie_walk key_offset g f (rev (map (fun ic => (snd ic, fst ic :: path)) (combine (seq 0 (length children)) children)) ++ rest)
+                             (key :: visited) (o :: expanded)
+               end
+      end
+  end.
+(* nodes expanded (each may push one export), starting from the root at offset 0 *)
+Definition trie_expanded (key_offset : bool) (g : trie) (fuel : nat) : list nat :=
+  trie_walk key_offset g fuel [(0, [])] [] [].
+
+(* a trie that is not a tree: both edges of node i point to node i + 1 *)
+Definition diamond (k : nat) : trie := fun o => if Nat.ltb o k then Some [S o; S o] else if Nat.eqb o k then Some [] else None.
